@@ -40,6 +40,8 @@ for f, lns in files.items():
     lines = open(f).read().split('\n')
     for ln in lns:
         i = ln - 1
+        if 'KNOWN FINDING' in lines[i]:
+            continue
         if lines[i].startswith('//@') and not lines[i].startswith('//@?'):
             lines[i] = '//@?' + lines[i][3:] + '   // undischarged on the reference tree: not claimed'
     open(f, 'w').write('\n'.join(lines))
